@@ -43,6 +43,9 @@ UNITS.append(check_type_unit("C09"))
 from contracts.misc_units import expand_help_unit  # noqa: E402
 UNITS.append(expand_help_unit("C09"))
 
+from contracts.adapt_arms import dataclass_unit  # noqa: E402
+UNITS.append(dataclass_unit("C09"))
+
 VERIFIED_CALLEES = ()
 LEVEL = "other"
 TECHNIQUE = "contract-based deductive verification of per-operation frame conditions (context variables restored on every exit; pending print_config request), VCs from the real AST + bounded comparison of operation histories with fresh parsers"
